@@ -14,8 +14,11 @@ spec fn canonTx(tx *transaction.Transaction) string
 // the decoder's contract gives no more: unknown fields are skipped, fields may come in any order, see data.BigIntCaster)
 spec fn decodesTo(b string, tx *transaction.Transaction) bool
 
+// ONE contract for C18 and C24 (govc takes one contract per interface method and file): C18 reads the hash as txHashOf(input),
+// C24 as hashOf(hasher, input) (spec fn of the [C24] block below); the two clauses together relate the two spec functions.
 func (h hashing.Hasher) Compute(s string) (r []byte)
   ensures function-of-input: str(r) == txHashOf(s)
+  ensures function-of-hasher-and-input: str(r) == hashOf(h, s)
   assigns nothing
 
 func (c sharding.Coordinator) ComputeId(address []byte) (r uint32)
@@ -50,4 +53,455 @@ lemma tx-hash-of-canonical-bytes
   hyp  canonical: str(txBuff) == canonTx(inTx.tx)
   call err = inTx.processFields(txBuff)
   concl hash-of-content: str(inTx.hash) == txHashOf(canonTx(inTx.tx))
+@*/
+
+// [C24]
+/*@
+// ---- C24: the interceptor verifies the signature over exactly the bytes of Transaction.GetDataForSigning -------------------
+// signText(tx, encoder) (data/transaction/contracts_verif.go) is the text GetDataForSigning produces.
+
+// collaborators (assumptions): key parsing, hashing and signature verification are functions of the byte CONTENTS
+spec fn keyOK(g crypto.KeyGenerator, b string) bool
+spec fn keyOf(g crypto.KeyGenerator, b string) crypto.PublicKey
+spec fn validSig(s crypto.SingleSigner, key crypto.PublicKey, msg string, sig string) bool
+spec fn hashOf(h hashing.Hasher, s string) string
+
+func (g crypto.KeyGenerator) PublicKeyFromByteArray(b []byte) (r crypto.PublicKey, err error)
+  assigns  nothing
+  ensures  (err == nil <==> keyOK(g, str(b))) && (err == nil ==> r == keyOf(g, str(b)))
+
+func (s crypto.SingleSigner) Verify(public crypto.PublicKey, msg []byte, sig []byte) (err error)
+  assigns  nothing
+  ensures  err == nil <==> validSig(s, public, str(msg), str(sig))
+
+// (hashing.Hasher.Compute: ONE contract for C18 and C24, stated in the first block of this file)
+
+func (c process.TxVersionCheckerHandler) IsSignedWithHash(tx *transaction.Transaction) (r bool)
+  pure
+
+func (c process.TxVersionCheckerHandler) CheckTxVersion(tx *transaction.Transaction) (err error)
+  assigns  nothing
+
+func (c core.PubkeyConverter) Len() (r int)
+  pure
+
+func (f process.FeeHandler) CheckValidityTxValues(tx process.TransactionWithFeeHandler) (err error)
+  assigns  nothing
+  ensures  accepted-is-fee-valid: err == nil <==> feeOK(f, tx)
+  ensures  refusals-are-gas-errors: !errIs(err, process.ErrInsufficientFunds) && !errIs(err, process.ErrUserNameDoesNotMatch) && !errIs(err, process.ErrUserNameDoesNotMatchInCrossShardTx)
+
+// the address length the converter was configured with is the length on which its Encode is injective (C48: bech32 and hex)
+spec fn convLenIsAddrLen(inTx *InterceptedTransaction) bool = inTx.pubkeyConv.Len() == addrLen(inTx.pubkeyConv)
+
+// integrity: what every transaction that reaches the signature check satisfies
+func (inTx *InterceptedTransaction) integrity(tx *transaction.Transaction) (err error)
+  requires collaborators-set: inTx.txVersionChecker != nil && inTx.pubkeyConv != nil && inTx.feeHandler != nil
+  requires transaction-set: tx != nil
+  ensures  value-set: err == nil ==> tx.Value != nil && big(tx.Value) >= 0
+  ensures  chain-id-is-the-nodes: err == nil ==> str(tx.ChainID) == str(inTx.chainID)
+  ensures  addresses-have-the-configured-length: err == nil ==> len(tx.RcvAddr) == inTx.pubkeyConv.Len() && len(tx.SndAddr) == inTx.pubkeyConv.Len()
+  ensures  user-names-bounded: err == nil ==> len(tx.RcvUserName) <= 32 && len(tx.SndUserName) <= 32
+  assigns  nothing
+
+// verifySig: acceptance means the signature verifies, under the key made from the sender address, over exactly signText
+// (or its hash when the version checker says the transaction is signed with hash)
+func (inTx *InterceptedTransaction) verifySig(tx *transaction.Transaction) (err error)
+  requires collaborators-set: inTx.keyGen != nil && inTx.txVersionChecker != nil && inTx.singleSigner != nil && inTx.txSignHasher != nil
+  requires value-set: tx != nil && tx.Value != nil
+  // outside the configured length the bech32 converter writes every address as "" (C48): the signed text then does not
+  // determine the address. integrity() establishes this for the outer transaction and for the inner one of relayed v1
+  requires addresses-have-the-configured-length: len(tx.RcvAddr) == inTx.pubkeyConv.Len() && len(tx.SndAddr) == inTx.pubkeyConv.Len()
+  ensures  signature-over-signing-bytes: err == nil && !inTx.txVersionChecker.IsSignedWithHash(tx) ==> validSig(inTx.singleSigner, keyOf(inTx.keyGen, str(tx.SndAddr)), signText(tx, inTx.pubkeyConv), str(tx.Signature))
+  ensures  signature-over-hash-of-signing-bytes: err == nil && inTx.txVersionChecker.IsSignedWithHash(tx) ==> inTx.enableSignedTxWithHash && validSig(inTx.singleSigner, keyOf(inTx.keyGen, str(tx.SndAddr)), hashOf(inTx.txSignHasher, signText(tx, inTx.pubkeyConv)), str(tx.Signature))
+  ensures  key-from-sender: err == nil ==> keyOK(inTx.keyGen, str(tx.SndAddr))
+  ensures  invalid-signature-refused: !inTx.txVersionChecker.IsSignedWithHash(tx) && !validSig(inTx.singleSigner, keyOf(inTx.keyGen, str(tx.SndAddr)), signText(tx, inTx.pubkeyConv), str(tx.Signature)) ==> err != nil
+  assigns  nothing
+
+// ---- C24: every path of CheckValidity into verifySig ------------------------------------------------------------------------
+func (p process.ArgumentsParser) ParseCallData(data string) (fn string, args [][]byte, err error)
+  assigns  nothing
+
+func (w process.WhiteListHandler) IsWhiteListed(interceptedData process.InterceptedData) (r bool)
+  assigns  nothing
+
+func (w process.WhiteListHandler) Add(keys [][]byte)
+  assigns  nothing
+
+func (m marshal.Marshalizer) Unmarshal(obj interface{}, buff []byte) (err error)
+  assigns  fields(payload(obj, ptr_transaction.Transaction))
+
+func (inTx *InterceptedTransaction) Hash() (r []byte)
+  ensures  r == inTx.hash
+  assigns  nothing
+
+func isRelayedTx(funcName string) (r bool)
+  ensures  r <==> funcName == "relayedTx" || funcName == "relayedTxV2"
+  assigns  nothing
+
+func createTx(marshalizer marshal.Marshalizer, txBuff []byte) (r *transaction.Transaction, err error)
+  requires marshalizer != nil
+  ensures  err == nil ==> r != nil && fresh(r)
+  assigns  nothing
+
+// the inner transaction of a relayed-v2 transaction: receiver, nonce, data and signature come from the call arguments
+func createRelayedV2(relayedTx *transaction.Transaction, args [][]byte) (r *transaction.Transaction, err error)
+  requires relayedTx != nil
+  ensures  four-arguments: err == nil <==> len(args) == 4
+  ensures  built: err == nil ==> r != nil && fresh(r) && r.Value != nil && big(r.Value) == 0 && r.RcvAddr == args[0] && r.SndAddr == relayedTx.RcvAddr && r.GasPrice == relayedTx.GasPrice && r.GasLimit == 0 && r.Data == args[2] && r.ChainID == relayedTx.ChainID && r.Version == relayedTx.Version && r.Signature == args[3] && r.Options == relayedTx.Options
+  assigns  nothing
+
+spec fn sigCollaborators(inTx *InterceptedTransaction) bool = inTx.keyGen != nil && inTx.txVersionChecker != nil && inTx.singleSigner != nil && inTx.txSignHasher != nil && inTx.pubkeyConv != nil && inTx.feeHandler != nil && inTx.argsParser != nil && inTx.signMarshalizer != nil && inTx.whiteListerVerifiedTxs != nil
+
+// relayed v1: the inner transaction passes integrity() before its signature is checked
+func (inTx *InterceptedTransaction) verifyIfRelayedTx(tx *transaction.Transaction) (err error)
+  requires sigCollaborators(inTx) && tx != nil
+  assigns  nothing
+
+// relayed v2: the inner transaction is built from the arguments; its sender is the outer receiver (createRelayedV2#built),
+// whose length the outer integrity() checked (requires outer-transaction-passed-integrity, proved at the call in
+// CheckValidity), its receiver args[0] is compared with pubkeyConv.Len() before verifySig (repair of F24, commit 0004599):
+// call-pre:InterceptedTransaction.verifySig:addresses-have-the-configured-length discharges from these two facts.
+func (inTx *InterceptedTransaction) verifyIfRelayedTxV2(tx *transaction.Transaction) (err error)
+  requires sigCollaborators(inTx) && tx != nil
+  requires outer-transaction-passed-integrity: len(tx.RcvAddr) == inTx.pubkeyConv.Len() && len(tx.SndAddr) == inTx.pubkeyConv.Len()
+  assigns  nothing
+
+func (inTx *InterceptedTransaction) CheckValidity() (err error)
+  requires sigCollaborators(inTx) && inTx.tx != nil
+  ensures  accepted-passed-integrity: err == nil ==> inTx.tx.Value != nil && big(inTx.tx.Value) >= 0 && str(inTx.tx.ChainID) == str(inTx.chainID) && len(inTx.tx.RcvAddr) == inTx.pubkeyConv.Len() && len(inTx.tx.SndAddr) == inTx.pubkeyConv.Len()
+  assigns  nothing
+@*/
+
+// [C23]
+/*@
+// ---- C23: move-balance transactions conserve value and advance the nonce once ---------------------------------------------
+//
+// GHOST MODEL of the collaborators (interfaces have no Go heap the verifier sees). For an account object a (a value of
+// state.UserAccountHandler) acctCell(a, f) is an uninterpreted one-element slice: acctCell(a,0)[0] is its balance,
+// acctCell(a,1)[0] its nonce; `assigns elems(acctCell(a,f))` is a write of exactly that cell. The inverse-function axioms
+// make the cells of different accounts / fields distinct; the SAME interface value (sender == receiver) has the SAME cells.
+// storedCell(db, a, f): what AccountsAdapter.SaveAccount wrote last for the object a. feeCell(h): the fees accumulated by
+// the TransactionFeeHandler. The concrete *userAccount methods (data/state/contracts_verif.go) are proved against the same
+// clauses stated over the real fields.
+spec fn acctCell(a state.UserAccountHandler, f int) []int
+  axiom acctOwner(base(acctCell(a, f))) == a
+  axiom acctField(base(acctCell(a, f))) == f
+  axiom ghostKind(base(acctCell(a, f))) == 1
+spec fn storedCell(db state.AccountsAdapter, a state.UserAccountHandler, f int) []int
+  axiom acctOwner(base(storedCell(db, a, f))) == a
+  axiom acctField(base(storedCell(db, a, f))) == f
+  axiom ghostKind(base(storedCell(db, a, f))) == 2
+spec fn feeCell(h process.TransactionFeeHandler) []int
+  axiom ghostKind(base(feeCell(h))) == 3
+spec fn acctOwner(r ref) state.UserAccountHandler
+spec fn acctField(r ref) int
+spec fn ghostKind(r ref) int
+spec fn bal(a state.UserAccountHandler) int = acctCell(a, 0)[0]
+spec fn nonceOf(a state.UserAccountHandler) int = acctCell(a, 1)[0]
+spec fn storedBal(db state.AccountsAdapter, a state.UserAccountHandler) int = storedCell(db, a, 0)[0]
+spec fn storedNonce(db state.AccountsAdapter, a state.UserAccountHandler) int = storedCell(db, a, 1)[0]
+spec fn feesCollected(h process.TransactionFeeHandler) int = feeCell(h)[0]
+
+func (a state.UserAccountHandler) GetNonce() (r uint64)
+  assigns  nothing
+  ensures  r == nonceOf(a)
+
+func (a state.UserAccountHandler) GetBalance() (r *big.Int)
+  assigns  nothing
+  ensures  copy: r != nil && fresh(r) && big(r) == bal(a)
+
+func (a state.UserAccountHandler) GetUserName() (r []byte)
+  pure
+
+func (a state.UserAccountHandler) AddToBalance(value *big.Int) (err error)
+  requires value != nil
+  ensures  refused-iff-negative-result: err != nil <==> old(bal(a)) + big(value) < 0
+  ensures  added: err == nil ==> bal(a) == old(bal(a)) + big(value)
+  ensures  refused-changes-nothing: err != nil ==> bal(a) == old(bal(a))
+  assigns  elems(acctCell(a, 0))
+
+func (a state.UserAccountHandler) SubFromBalance(value *big.Int) (err error)
+  requires value != nil
+  ensures  refused-iff-negative-result: err != nil <==> old(bal(a)) - big(value) < 0
+  ensures  subtracted: err == nil ==> bal(a) == old(bal(a)) - big(value)
+  ensures  refused-changes-nothing: err != nil ==> bal(a) == old(bal(a))
+  assigns  elems(acctCell(a, 0))
+
+func (a state.UserAccountHandler) IncreaseNonce(nonce uint64)
+  ensures  advanced-modulo-2-64: nonceOf(a) == (old(nonceOf(a)) + nonce) % 18446744073709551616
+  assigns  elems(acctCell(a, 1))
+
+func (db state.AccountsAdapter) SaveAccount(account vmcommon.AccountHandler) (err error)
+  ensures  saved: err == nil ==> storedBal(db, account) == bal(account) && storedNonce(db, account) == nonceOf(account)
+  assigns  elems(storedCell(db, account, 0)), elems(storedCell(db, account, 1))
+
+func (h process.TransactionFeeHandler) ProcessTransactionFee(cost *big.Int, devFee *big.Int, txHash []byte)
+  requires cost != nil
+  ensures  accumulated: feesCollected(h) == old(feesCollected(h)) + big(cost)
+  assigns  elems(feeCell(h))
+
+// fee computations (process/economics/contracts_verif.go proves these clauses for economicsData: fullFee, moveFee, feeValid)
+spec fn feeOK(f process.FeeHandler, tx process.TransactionWithFeeHandler) bool
+spec fn txFee(f process.FeeHandler, tx process.TransactionWithFeeHandler) int
+spec fn mvFee(f process.FeeHandler, tx process.TransactionWithFeeHandler) int
+
+func (f process.FeeHandler) ComputeTxFee(tx process.TransactionWithFeeHandler) (r *big.Int)
+  assigns  nothing
+  ensures  r != nil && fresh(r) && big(r) == txFee(f, tx)
+  ensures  at-least-move-balance-fee: feeOK(f, tx) ==> txFee(f, tx) >= mvFee(f, tx) && mvFee(f, tx) >= 0
+
+func (f process.FeeHandler) ComputeMoveBalanceFee(tx process.TransactionWithFeeHandler) (r *big.Int)
+  assigns  nothing
+  ensures  r != nil && fresh(r) && big(r) == mvFee(f, tx)
+  ensures  non-negative: mvFee(f, tx) >= 0
+
+func (f process.FeeHandler) ComputeFeeForProcessing(tx process.TransactionWithFeeHandler, gasToUse uint64) (r *big.Int)
+  assigns  nothing
+  ensures  r != nil && fresh(r) && big(r) >= 0
+
+func (f process.FeeHandler) ComputeGasLimit(tx process.TransactionWithFeeHandler) (r uint64)
+  pure
+
+// errors.Is: uninterpreted relation errIs; an error matches itself, nil matches nothing
+spec fn errIs(err error, target error) bool
+  axiom matches-itself: err != nil && err == target ==> errIs(err, target)
+  axiom nil-matches-nothing: err == nil ==> !errIs(err, target)
+  axiom plain-errors-match-only-themselves: plainErr(err) && err != target ==> !errIs(err, target)
+  axiom wrappers-of-plain-errors-match-what-they-wrap: isWrapper(err) && plainErr(wrappedBy(err)) && err != target ==> (errIs(err, target) <==> wrappedBy(err) == target)
+// isWrapper(e): e was made by fmt.Errorf("%w ...", w, ...); wrappedBy(e) == w
+spec fn isWrapper(err error) bool
+spec fn wrappedBy(err error) error
+// plainErr(e): e was made by errors.New (no Is/Unwrap method): the package-level sentinels of process
+spec fn plainErr(err error) bool
+spec fn sentinelsArePlain() bool = plainErr(process.ErrInsufficientFunds) && plainErr(process.ErrInsufficientFee) && plainErr(process.ErrUserNameDoesNotMatch) && plainErr(process.ErrUserNameDoesNotMatchInCrossShardTx) && plainErr(process.ErrHigherNonceInTransaction) && plainErr(process.ErrLowerNonceInTransaction) && plainErr(process.ErrNotEnoughGasInUserTx)
+
+extern func errors.Is(err error, target error) (r bool)
+  assigns  nothing
+  ensures  r == errIs(err, target)
+
+// name checks: a non-empty name in the transaction must equal the name of the account that is in this shard
+spec fn sndNameWrong(tx *transaction.Transaction, acntSnd state.UserAccountHandler) bool = len(tx.SndUserName) > 0 && !isNil(acntSnd) && str(tx.SndUserName) != str(acntSnd.GetUserName())
+spec fn rcvNameWrong(tx *transaction.Transaction, acntDst state.UserAccountHandler) bool = len(tx.RcvUserName) > 0 && !isNil(acntDst) && str(tx.RcvUserName) != str(acntDst.GetUserName())
+
+func (txProc *baseTxProcessor) checkUserNames(tx *transaction.Transaction, acntSnd state.UserAccountHandler, acntDst state.UserAccountHandler) (err error)
+  requires tx != nil
+  requires error-variables-as-declared: sentinelsDistinct()
+  ensures  accepted-iff-names-match: err == nil <==> !sndNameWrong(tx, acntSnd) && !rcvNameWrong(tx, acntDst)
+  ensures  cross-shard-error-only-without-sender: err == process.ErrUserNameDoesNotMatchInCrossShardTx ==> isNil(acntSnd) && rcvNameWrong(tx, acntDst)
+  ensures  cross-shard-error-when: !sndNameWrong(tx, acntSnd) && rcvNameWrong(tx, acntDst) && isNil(acntSnd) ==> err == process.ErrUserNameDoesNotMatchInCrossShardTx
+  ensures  only-these-errors: err == nil || err == process.ErrUserNameDoesNotMatch || err == process.ErrUserNameDoesNotMatchInCrossShardTx
+  assigns  nothing
+
+// fmt.Errorf with a leading %w: the result is a new error that errors.Is-matches what the wrapped first argument matches
+extern func fmt.Errorf(format string, a []interface{}) (r error)
+  assigns  nothing
+  ensures  r != nil
+  ensures  wraps-first-argument: len(format) >= 2 && format[0] == 37 && format[1] == 119 && len(a) >= 1 ==> isWrapper(r) && wrappedBy(r) == a[0]
+  ensures  new-error: r != process.ErrInsufficientFunds && r != process.ErrUserNameDoesNotMatch && r != process.ErrUserNameDoesNotMatchInCrossShardTx
+
+func (e error) Error() (r string)
+  pure
+
+spec fn sentinelsDistinct() bool = process.ErrNilTransaction != process.ErrFailedTransaction && process.ErrInsufficientFunds != process.ErrFailedTransaction && process.ErrNilAddressContainer != process.ErrFailedTransaction && process.ErrWrongTypeAssertion != process.ErrFailedTransaction && process.ErrUserNameDoesNotMatch != nil && process.ErrUserNameDoesNotMatchInCrossShardTx != nil && process.ErrInsufficientFunds != nil && process.ErrInsufficientFee != nil && process.ErrFailedTransaction != nil && process.ErrFailedTransaction != process.ErrInsufficientFunds && process.ErrUserNameDoesNotMatch != process.ErrUserNameDoesNotMatchInCrossShardTx && process.ErrInsufficientFee != process.ErrInsufficientFunds && process.ErrInsufficientFee != process.ErrUserNameDoesNotMatch && process.ErrInsufficientFee != process.ErrUserNameDoesNotMatchInCrossShardTx && process.ErrInsufficientFunds != process.ErrUserNameDoesNotMatch && process.ErrInsufficientFunds != process.ErrUserNameDoesNotMatchInCrossShardTx && process.ErrHigherNonceInTransaction != process.ErrInsufficientFunds && process.ErrHigherNonceInTransaction != process.ErrUserNameDoesNotMatch && process.ErrHigherNonceInTransaction != process.ErrUserNameDoesNotMatchInCrossShardTx && process.ErrLowerNonceInTransaction != process.ErrInsufficientFunds && process.ErrLowerNonceInTransaction != process.ErrUserNameDoesNotMatch && process.ErrLowerNonceInTransaction != process.ErrUserNameDoesNotMatchInCrossShardTx && process.ErrNotEnoughGasInUserTx != process.ErrInsufficientFunds && process.ErrNotEnoughGasInUserTx != process.ErrUserNameDoesNotMatch && process.ErrNotEnoughGasInUserTx != process.ErrUserNameDoesNotMatchInCrossShardTx
+
+// what a transaction that is not the inner transaction of a relayed one must be able to pay: the fee, and fee (or, before the
+// penalize-too-much-gas flag, gasLimit*gasPrice) plus value
+spec fn feeTx(tx *transaction.Transaction) process.TransactionWithFeeHandler = tx
+spec fn fullFee(txProc *baseTxProcessor, tx *transaction.Transaction) int = txFee(txProc.economicsFee, feeTx(tx))
+spec fn moveFee(txProc *baseTxProcessor, tx *transaction.Transaction) int = mvFee(txProc.economicsFee, feeTx(tx))
+spec fn costBase(txProc *baseTxProcessor, tx *transaction.Transaction) int = flagSet(txProc.flagPenalizedTooMuchGas) ? fullFee(txProc, tx) : tx.GasLimit * tx.GasPrice
+// the errors ProcessTransaction reacts to by charging (the three classes are told apart with errors.Is)
+spec fn isFundsErr(err error) bool = errIs(err, process.ErrInsufficientFunds)
+spec fn isNameErr(err error) bool = errIs(err, process.ErrUserNameDoesNotMatch)
+spec fn isCrossNameErr(err error) bool = errIs(err, process.ErrUserNameDoesNotMatchInCrossShardTx)
+
+func (txProc *baseTxProcessor) checkTxValues(tx *transaction.Transaction, acntSnd state.UserAccountHandler, acntDst state.UserAccountHandler, isUserTxOfRelayed bool) (err error)
+  requires tx != nil && txProc.economicsFee != nil
+  requires value-set-by-interceptor: tx.Value != nil && allocated(tx.Value)
+  requires error-variables-as-declared: sentinelsDistinct() && sentinelsArePlain()
+  ensures  accepted-has-current-nonce: err == nil && !isNil(acntSnd) ==> nonceOf(acntSnd) == tx.Nonce
+  ensures  accepted-names-match: err == nil ==> !sndNameWrong(tx, acntSnd) && !rcvNameWrong(tx, acntDst)
+  ensures  accepted-is-fee-valid: err == nil && !isNil(acntSnd) ==> feeOK(txProc.economicsFee, feeTx(tx))
+  ensures  accepted-can-pay-fee: err == nil && !isNil(acntSnd) && !isUserTxOfRelayed ==> bal(acntSnd) >= fullFee(txProc, tx)
+  ensures  accepted-can-pay-cost: err == nil && !isNil(acntSnd) && !isUserTxOfRelayed ==> bal(acntSnd) >= costBase(txProc, tx) + big(tx.Value)
+  ensures  insufficient-funds-means: isFundsErr(err) ==> err == process.ErrInsufficientFunds && !isNil(acntSnd) && nonceOf(acntSnd) == tx.Nonce && !sndNameWrong(tx, acntSnd) && !rcvNameWrong(tx, acntDst) && (!isUserTxOfRelayed ==> feeOK(txProc.economicsFee, feeTx(tx)) && bal(acntSnd) >= fullFee(txProc, tx) && bal(acntSnd) < costBase(txProc, tx) + big(tx.Value))
+  ensures  insufficient-funds-when: !isNil(acntSnd) && !isUserTxOfRelayed && nonceOf(acntSnd) == tx.Nonce && !sndNameWrong(tx, acntSnd) && !rcvNameWrong(tx, acntDst) && feeOK(txProc.economicsFee, feeTx(tx)) && bal(acntSnd) >= fullFee(txProc, tx) && bal(acntSnd) < costBase(txProc, tx) + big(tx.Value) ==> err == process.ErrInsufficientFunds
+  ensures  accepted-when: !isNil(acntSnd) && !isUserTxOfRelayed && nonceOf(acntSnd) == tx.Nonce && !sndNameWrong(tx, acntSnd) && !rcvNameWrong(tx, acntDst) && feeOK(txProc.economicsFee, feeTx(tx)) && bal(acntSnd) >= fullFee(txProc, tx) && bal(acntSnd) >= costBase(txProc, tx) + big(tx.Value) ==> err == nil
+  ensures  name-error-means: isNameErr(err) ==> err == process.ErrUserNameDoesNotMatch && (sndNameWrong(tx, acntSnd) || rcvNameWrong(tx, acntDst))
+  // the property's "nonce advances by one whenever anything is charged": ProcessTransaction charges on a name error, so a
+  // name error must imply that the transaction carries the account's current nonce. Holds since the nonce is compared
+  // before the names (repair of F23, commit f43216d); before, @9 (the return of checkUserNames' error) failed.
+  ensures  name-error-only-at-current-nonce: isNameErr(err) && !isNil(acntSnd) ==> nonceOf(acntSnd) == tx.Nonce
+  ensures  cross-shard-name-error-means: isCrossNameErr(err) ==> err == process.ErrUserNameDoesNotMatchInCrossShardTx && isNil(acntSnd) && rcvNameWrong(tx, acntDst)
+  ensures  stale-or-future-nonce-refused: !isNil(acntSnd) && nonceOf(acntSnd) != tx.Nonce ==> err != nil && !isFundsErr(err)
+  ensures  nonce-is-compared-first: !isNil(acntSnd) ==> (nonceOf(acntSnd) < tx.Nonce ==> err == process.ErrHigherNonceInTransaction) && (nonceOf(acntSnd) > tx.Nonce ==> err == process.ErrLowerNonceInTransaction)
+  ensures  other-nonce-is-never-a-charged-error: !isNil(acntSnd) && nonceOf(acntSnd) != tx.Nonce ==> !isFundsErr(err) && !isNameErr(err) && !isCrossNameErr(err)
+  ensures  cannot-pay-fee-refused-without-charge: !isNil(acntSnd) && !isUserTxOfRelayed && err != nil && !isFundsErr(err) && !isNameErr(err) ==> !isCrossNameErr(err)
+  assigns  nothing
+@*/
+
+// [C23]
+/*@
+// ---- C23: charging -----------------------------------------------------------------------------------------------------------
+func (h process.IntermediateTransactionHandler) AddIntermediateTransactions(txs []data.TransactionHandler) (err error)
+  assigns  nothing
+
+func (sc process.SmartContractProcessor) IsPayable(address []byte) (r bool, err error)
+  assigns  nothing
+
+// (sharding.Coordinator.ComputeId / SelfId: pure, stated once in the first block of this file, shared with C18)
+
+spec fn chargeCollaborators(txProc *txProcessor) bool = txProc.baseTxProcessor != nil && txProc.baseTxProcessor.economicsFee != nil && txProc.baseTxProcessor.accounts != nil && txProc.baseTxProcessor.scProcessor != nil && txProc.baseTxProcessor.shardCoordinator != nil && txProc.badTxForwarder != nil && txProc.receiptForwarder != nil && txProc.txFeeHandler != nil
+
+// which of the two fees processTxFee takes from the sender (not the inner transaction of a relayed one): the move-balance
+// fee for a plain transfer, the whole cost when the destination shard will run a contract
+spec fn takesTotal(txProc *txProcessor, tx *transaction.Transaction, acntDst state.UserAccountHandler, dstShardTxType process.TransactionType) bool = dstShardTxType != process.MoveBalance || (!flagSet(txProc.flagMetaProtection) && isNil(acntDst) && len(tx.Data) > 0 && core.IsSmartContractAddress(tx.RcvAddr))
+spec fn feeTaken(txProc *txProcessor, tx *transaction.Transaction, acntDst state.UserAccountHandler, dstShardTxType process.TransactionType) int = takesTotal(txProc, tx, acntDst, dstShardTxType) ? costBase(txProc.baseTxProcessor, tx) : moveFee(txProc.baseTxProcessor, tx)
+
+func (txProc *txProcessor) processTxFee(tx *transaction.Transaction, acntSnd state.UserAccountHandler, acntDst state.UserAccountHandler, dstShardTxType process.TransactionType, isUserTxOfRelayed bool) (mv *big.Int, total *big.Int, err error)
+  requires tx != nil && chargeCollaborators(txProc)
+  ensures  no-sender-in-shard: isNil(acntSnd) ==> err == nil && mv != nil && total != nil && big(mv) == 0 && big(total) == 0
+  ensures  reports-both-fees: err == nil && !isNil(acntSnd) && !isUserTxOfRelayed ==> mv != nil && total != nil && big(mv) == moveFee(txProc.baseTxProcessor, tx) && big(total) == costBase(txProc.baseTxProcessor, tx)
+  ensures  takes-exactly-one-fee: err == nil && !isNil(acntSnd) && !isUserTxOfRelayed ==> bal(acntSnd) == old(bal(acntSnd)) - feeTaken(txProc, tx, acntDst, dstShardTxType)
+  ensures  plain-transfer-takes-move-balance-fee: err == nil && !isNil(acntSnd) && !isUserTxOfRelayed && dstShardTxType == process.MoveBalance && !isNil(acntDst) ==> bal(acntSnd) == old(bal(acntSnd)) - moveFee(txProc.baseTxProcessor, tx)
+  ensures  refused-iff-cannot-pay: !isNil(acntSnd) && !isUserTxOfRelayed ==> (err != nil <==> old(bal(acntSnd)) < feeTaken(txProc, tx, acntDst, dstShardTxType))
+  ensures  refused-changes-nothing: err != nil ==> bal(acntSnd) == old(bal(acntSnd))
+  ensures  results-set: err == nil ==> mv != nil && total != nil
+  assigns  elems(acctCell(acntSnd, 0))
+
+// AccountsAdapter.LoadAccount: within one ProcessTransaction the adapter hands out ONE object per address (acctAt); the
+// real AccountsDB builds a new object from the saved state on every call - getAccounts therefore loads an address that is
+// both sender and receiver only once, which is what same-address-same-object states
+spec fn acctAt(db state.AccountsAdapter, addr string) state.UserAccountHandler
+spec fn addrOf(a state.UserAccountHandler) string
+spec fn loadFails(db state.AccountsAdapter, addr string) bool
+
+func (db state.AccountsAdapter) LoadAccount(address []byte) (r vmcommon.AccountHandler, err error)
+  assigns  nothing
+  ensures  one-object-per-address: err == nil ==> r == acctAt(db, str(address)) && addrOf(r) == str(address) && !isNil(r)
+  ensures  fails-for-some-addresses: err != nil <==> loadFails(db, str(address))
+  ensures  load-errors-are-of-another-kind: err != process.ErrFailedTransaction
+
+spec fn inShard(txProc *baseTxProcessor, adr []byte) bool = txProc.shardCoordinator.ComputeId(adr) == txProc.shardCoordinator.SelfId()
+
+func (txProc *baseTxProcessor) getAccounts(adrSrc []byte, adrDst []byte) (src state.UserAccountHandler, dst state.UserAccountHandler, err error)
+  requires txProc.shardCoordinator != nil && txProc.accounts != nil
+  ensures  same-address-same-object: err == nil && str(adrSrc) == str(adrDst) ==> src == dst && src == acctAt(txProc.accounts, str(adrSrc)) && !isNil(src)
+  ensures  sender-in-shard-loaded: err == nil && inShard(txProc, adrSrc) ==> src == acctAt(txProc.accounts, str(adrSrc)) && !isNil(src) && addrOf(src) == str(adrSrc)
+  ensures  receiver-in-shard-loaded: err == nil && inShard(txProc, adrDst) ==> dst == acctAt(txProc.accounts, str(adrDst)) && !isNil(dst) && addrOf(dst) == str(adrDst)
+  ensures  sender-elsewhere-is-nil: err == nil && !inShard(txProc, adrSrc) && str(adrSrc) != str(adrDst) ==> src == nil
+  ensures  receiver-elsewhere-is-nil: err == nil && !inShard(txProc, adrDst) && str(adrSrc) != str(adrDst) ==> dst == nil
+  requires error-variables-as-declared: process.ErrFailedTransaction != nil && process.ErrNilAddressContainer != process.ErrFailedTransaction && process.ErrWrongTypeAssertion != process.ErrFailedTransaction
+  ensures  not-a-failed-transaction: err != process.ErrFailedTransaction
+  ensures  failure-returns-nothing: err != nil ==> src == nil && dst == nil
+  ensures  both-in-shard-and-loaded: err == nil && inShard(txProc, adrSrc) && inShard(txProc, adrDst) ==> !loadFails(txProc.accounts, str(adrSrc)) && !loadFails(txProc.accounts, str(adrDst))
+  assigns  nothing
+
+func (txProc *txProcessor) checkIfValidTxToMetaChain(tx *transaction.Transaction, adrDst []byte) (err error)
+  requires tx != nil && chargeCollaborators(txProc)
+  ensures  other-shards-pass: txProc.baseTxProcessor.shardCoordinator.ComputeId(adrDst) != core.MetachainShardId ==> err == nil
+  assigns  nothing
+
+func (txProc *txProcessor) createReceiptWithReturnedGas(txHash []byte, tx *transaction.Transaction, acntSnd state.UserAccountHandler, moveBalanceCost *big.Int, totalProvided *big.Int, destShardTxType process.TransactionType, isUserTxOfRelayed bool) (err error)
+  requires tx != nil && chargeCollaborators(txProc) && moveBalanceCost != nil && totalProvided != nil
+  ensures  inputs-untouched: big(moveBalanceCost) == old(big(moveBalanceCost)) && big(totalProvided) == old(big(totalProvided))
+  assigns  nothing
+
+// the transfer itself (not the inner transaction of a relayed one; destination shard sees a plain transfer):
+// the fee, then nonce+1 and the value leave the sender, which is saved; then the receiver - if it is in this shard - gets the
+// value and is saved; the move-balance fee goes to the fee collector last. Sender == receiver is ONE object: net effect -fee.
+spec fn plainTransfer(destShardTxType process.TransactionType, isUserTxOfRelayed bool) bool = destShardTxType == process.MoveBalance && !isUserTxOfRelayed
+
+func (txProc *txProcessor) processMoveBalance(tx *transaction.Transaction, acntSrc state.UserAccountHandler, acntDst state.UserAccountHandler, destShardTxType process.TransactionType, isUserTxOfRelayed bool) (err error)
+  requires tx != nil && chargeCollaborators(txProc) && txProc.baseTxProcessor.marshalizer != nil && txProc.baseTxProcessor.hasher != nil
+  requires value-set-by-interceptor: tx.Value != nil && allocated(tx.Value)
+  requires value-not-negative: big(tx.Value) >= 0
+  ensures  sender-pays-fee-and-value: err == nil && plainTransfer(destShardTxType, isUserTxOfRelayed) && !isNil(acntSrc) && !isNil(acntDst) && acntSrc != acntDst ==> bal(acntSrc) == old(bal(acntSrc)) - moveFee(txProc.baseTxProcessor, tx) - big(tx.Value)
+  ensures  receiver-gets-value: err == nil && plainTransfer(destShardTxType, isUserTxOfRelayed) && !isNil(acntDst) && acntSrc != acntDst ==> bal(acntDst) == old(bal(acntDst)) + big(tx.Value)
+  ensures  transfer-to-self-costs-the-fee: err == nil && plainTransfer(destShardTxType, isUserTxOfRelayed) && !isNil(acntSrc) && acntSrc == acntDst ==> bal(acntSrc) == old(bal(acntSrc)) - moveFee(txProc.baseTxProcessor, tx)
+  ensures  sender-nonce-advances-once: err == nil && !isNil(acntSrc) ==> nonceOf(acntSrc) == (old(nonceOf(acntSrc)) + 1) % 18446744073709551616
+  ensures  fee-goes-to-collector: err == nil && plainTransfer(destShardTxType, isUserTxOfRelayed) && !isNil(acntSrc) ==> feesCollected(txProc.txFeeHandler) == old(feesCollected(txProc.txFeeHandler)) + moveFee(txProc.baseTxProcessor, tx)
+  ensures  both-saved: err == nil && !isNil(acntSrc) && !isNil(acntDst) ==> storedBal(txProc.baseTxProcessor.accounts, acntSrc) == bal(acntSrc) && storedNonce(txProc.baseTxProcessor.accounts, acntSrc) == nonceOf(acntSrc) && storedBal(txProc.baseTxProcessor.accounts, acntDst) == bal(acntDst)
+  ensures  value-conserved: err == nil && plainTransfer(destShardTxType, isUserTxOfRelayed) && !isNil(acntSrc) && !isNil(acntDst) && acntSrc != acntDst ==> bal(acntSrc) + bal(acntDst) + feesCollected(txProc.txFeeHandler) == old(bal(acntSrc) + bal(acntDst) + feesCollected(txProc.txFeeHandler))
+  ensures  cannot-pay-fee-changes-nothing: plainTransfer(destShardTxType, isUserTxOfRelayed) && !isNil(acntSrc) && !isNil(acntDst) && old(bal(acntSrc)) < moveFee(txProc.baseTxProcessor, tx) ==> err != nil && bal(acntSrc) == old(bal(acntSrc)) && nonceOf(acntSrc) == old(nonceOf(acntSrc)) && bal(acntDst) == old(bal(acntDst))
+  ensures  can-pay-fee-and-value-then-sender-is-charged: plainTransfer(destShardTxType, isUserTxOfRelayed) && !isNil(acntSrc) && !isNil(acntDst) && acntSrc != acntDst && old(bal(acntSrc)) >= moveFee(txProc.baseTxProcessor, tx) + big(tx.Value) ==> bal(acntSrc) == old(bal(acntSrc)) - moveFee(txProc.baseTxProcessor, tx) - big(tx.Value) && nonceOf(acntSrc) == (old(nonceOf(acntSrc)) + 1) % 18446744073709551616
+  ensures  error-collects-no-fee: err != nil ==> feesCollected(txProc.txFeeHandler) == old(feesCollected(txProc.txFeeHandler))
+  ensures  receiver-only-ever-gains-the-value: !isNil(acntDst) && acntSrc != acntDst ==> bal(acntDst) == old(bal(acntDst)) || bal(acntDst) == old(bal(acntDst)) + big(tx.Value)
+  assigns  elems(acctCell(acntSrc, 0)), elems(acctCell(acntSrc, 1)), elems(acctCell(acntDst, 0)), elems(feeCell(txProc.txFeeHandler)), elems(storedCell(txProc.baseTxProcessor.accounts, acntSrc, 0)), elems(storedCell(txProc.baseTxProcessor.accounts, acntSrc, 1)), elems(storedCell(txProc.baseTxProcessor.accounts, acntDst, 0)), elems(storedCell(txProc.baseTxProcessor.accounts, acntDst, 1))
+
+// ---- C23: ProcessTransaction, plain transfer inside one shard ----------------------------------------------------------------
+spec fn kindOf(h process.TxTypeHandler, tx data.TransactionHandler) process.TransactionType
+spec fn dstKindOf(h process.TxTypeHandler, tx data.TransactionHandler) process.TransactionType
+func (h process.TxTypeHandler) ComputeTransactionType(tx data.TransactionHandler) (t process.TransactionType, d process.TransactionType)
+  assigns  nothing
+  ensures  t == kindOf(h, tx) && d == dstKindOf(h, tx)
+
+spec fn txH(tx *transaction.Transaction) data.TransactionHandler = tx
+spec fn sndAcct(txProc *txProcessor, tx *transaction.Transaction) state.UserAccountHandler = acctAt(txProc.baseTxProcessor.accounts, str(tx.SndAddr))
+spec fn rcvAcct(txProc *txProcessor, tx *transaction.Transaction) state.UserAccountHandler = acctAt(txProc.baseTxProcessor.accounts, str(tx.RcvAddr))
+// a plain transfer between two addresses of this shard (txTypeHandler says MoveBalance here and at the destination)
+spec fn intraShardTransfer(txProc *txProcessor, tx *transaction.Transaction) bool = kindOf(txProc.txTypeHandler, txH(tx)) == process.MoveBalance && dstKindOf(txProc.txTypeHandler, txH(tx)) == process.MoveBalance && inShard(txProc.baseTxProcessor, tx.SndAddr) && inShard(txProc.baseTxProcessor, tx.RcvAddr)
+spec fn namesMatch(txProc *txProcessor, tx *transaction.Transaction) bool = !sndNameWrong(tx, sndAcct(txProc, tx)) && !rcvNameWrong(tx, rcvAcct(txProc, tx))
+spec fn collected(txProc *txProcessor) int = feesCollected(txProc.txFeeHandler)
+
+func (txProc *txProcessor) ProcessTransaction(tx *transaction.Transaction) (rc vmcommon.ReturnCode, err error)
+  requires chargeCollaborators(txProc) && txProc.baseTxProcessor.marshalizer != nil && txProc.baseTxProcessor.hasher != nil && txProc.txTypeHandler != nil
+  requires value-set-by-interceptor: tx != nil ==> tx.Value != nil && allocated(tx.Value) && big(tx.Value) >= 0
+  requires error-variables-as-declared: sentinelsDistinct() && sentinelsArePlain()
+  // (everything on the right of old(..) is the state at entry: the other transaction kinds - contracts, relayed - are
+  // not described and may change anything)
+  // success: sender -(fee+value), receiver +value, fee to the collector, nonce +1
+  ensures  transfer-moves-value-and-fee: rc == 0 && err == nil && old(intraShardTransfer(txProc, tx)) && old(str(tx.SndAddr) != str(tx.RcvAddr)) ==> bal(old(sndAcct(txProc, tx))) == old(bal(sndAcct(txProc, tx))) - old(moveFee(txProc.baseTxProcessor, tx)) - old(big(tx.Value)) && bal(old(rcvAcct(txProc, tx))) == old(bal(rcvAcct(txProc, tx))) + old(big(tx.Value)) && feesCollected(old(txProc.txFeeHandler)) == old(collected(txProc)) + old(moveFee(txProc.baseTxProcessor, tx))
+  ensures  transfer-to-self-costs-the-fee: rc == 0 && err == nil && old(intraShardTransfer(txProc, tx)) && old(str(tx.SndAddr) == str(tx.RcvAddr)) ==> bal(old(sndAcct(txProc, tx))) == old(bal(sndAcct(txProc, tx))) - old(moveFee(txProc.baseTxProcessor, tx)) && feesCollected(old(txProc.txFeeHandler)) == old(collected(txProc)) + old(moveFee(txProc.baseTxProcessor, tx))
+  ensures  transfer-advances-nonce-once: rc == 0 && err == nil && old(intraShardTransfer(txProc, tx)) ==> old(nonceOf(sndAcct(txProc, tx))) == old(tx.Nonce) && nonceOf(old(sndAcct(txProc, tx))) == (old(tx.Nonce) + 1) % 18446744073709551616
+  ensures  transfer-only-when-affordable: rc == 0 && err == nil && old(intraShardTransfer(txProc, tx)) ==> old(bal(sndAcct(txProc, tx))) >= old(costBase(txProc.baseTxProcessor, tx)) + old(big(tx.Value)) && old(namesMatch(txProc, tx))
+  // insufficient funds (fee affordable, fee+value not): only the fee is charged, nonce +1, receiver untouched
+  ensures  insufficient-funds-is-rejected: old(intraShardTransfer(txProc, tx)) && old(nonceOf(sndAcct(txProc, tx))) == old(tx.Nonce) && old(namesMatch(txProc, tx)) && old(feeOK(txProc.baseTxProcessor.economicsFee, feeTx(tx))) && old(bal(sndAcct(txProc, tx))) >= old(fullFee(txProc.baseTxProcessor, tx)) && old(bal(sndAcct(txProc, tx))) < old(costBase(txProc.baseTxProcessor, tx)) + old(big(tx.Value)) ==> err != nil
+  // (the charged rejection is reported with return code 0 and the error of executingFailedTransaction, every other rejection by checkTxValues with UserError)
+  ensures  insufficient-funds-is-dispatched-to-the-charging-branch: old(intraShardTransfer(txProc, tx)) && old(nonceOf(sndAcct(txProc, tx))) == old(tx.Nonce) && old(namesMatch(txProc, tx)) && old(feeOK(txProc.baseTxProcessor.economicsFee, feeTx(tx))) && old(bal(sndAcct(txProc, tx))) >= old(fullFee(txProc.baseTxProcessor, tx)) && old(bal(sndAcct(txProc, tx))) < old(costBase(txProc.baseTxProcessor, tx)) + old(big(tx.Value)) ==> rc == 0
+  ensures  insufficient-funds-leaves-receiver-untouched: old(intraShardTransfer(txProc, tx)) && old(nonceOf(sndAcct(txProc, tx))) == old(tx.Nonce) && old(namesMatch(txProc, tx)) && old(feeOK(txProc.baseTxProcessor.economicsFee, feeTx(tx))) && old(bal(sndAcct(txProc, tx))) >= old(fullFee(txProc.baseTxProcessor, tx)) && old(bal(sndAcct(txProc, tx))) < old(costBase(txProc.baseTxProcessor, tx)) + old(big(tx.Value)) ==> (old(str(tx.SndAddr) != str(tx.RcvAddr)) ==> bal(old(rcvAcct(txProc, tx))) == old(bal(rcvAcct(txProc, tx))))
+  ensures  insufficient-funds-charges-the-fee-and-advances-nonce: old(intraShardTransfer(txProc, tx)) && old(nonceOf(sndAcct(txProc, tx))) == old(tx.Nonce) && old(namesMatch(txProc, tx)) && old(feeOK(txProc.baseTxProcessor.economicsFee, feeTx(tx))) && old(bal(sndAcct(txProc, tx))) >= old(fullFee(txProc.baseTxProcessor, tx)) && old(bal(sndAcct(txProc, tx))) < old(costBase(txProc.baseTxProcessor, tx)) + old(big(tx.Value)) ==> (err == process.ErrFailedTransaction ==> bal(old(sndAcct(txProc, tx))) == old(bal(sndAcct(txProc, tx))) - old(fullFee(txProc.baseTxProcessor, tx)) && nonceOf(old(sndAcct(txProc, tx))) == (old(tx.Nonce) + 1) % 18446744073709551616)
+  ensures  insufficient-funds-charges-nothing-but-the-fee: old(intraShardTransfer(txProc, tx)) && old(nonceOf(sndAcct(txProc, tx))) == old(tx.Nonce) && old(namesMatch(txProc, tx)) && old(feeOK(txProc.baseTxProcessor.economicsFee, feeTx(tx))) && old(bal(sndAcct(txProc, tx))) >= old(fullFee(txProc.baseTxProcessor, tx)) && old(bal(sndAcct(txProc, tx))) < old(costBase(txProc.baseTxProcessor, tx)) + old(big(tx.Value)) ==> (bal(old(sndAcct(txProc, tx))) == old(bal(sndAcct(txProc, tx))) - old(fullFee(txProc.baseTxProcessor, tx)) || bal(old(sndAcct(txProc, tx))) == old(bal(sndAcct(txProc, tx))))
+  // any other rejection by checkTxValues changes nothing
+  ensures  cannot-pay-fee-changes-nothing: old(intraShardTransfer(txProc, tx)) && old(nonceOf(sndAcct(txProc, tx))) == old(tx.Nonce) && old(namesMatch(txProc, tx)) && old(bal(sndAcct(txProc, tx))) < old(fullFee(txProc.baseTxProcessor, tx)) ==> err != nil && bal(old(sndAcct(txProc, tx))) == old(bal(sndAcct(txProc, tx))) && nonceOf(old(sndAcct(txProc, tx))) == old(nonceOf(sndAcct(txProc, tx))) && bal(old(rcvAcct(txProc, tx))) == old(bal(rcvAcct(txProc, tx))) && feesCollected(old(txProc.txFeeHandler)) == old(collected(txProc))
+  ensures  other-nonce-with-matching-names-changes-nothing: old(intraShardTransfer(txProc, tx)) && old(nonceOf(sndAcct(txProc, tx))) != old(tx.Nonce) && old(namesMatch(txProc, tx)) ==> err != nil && bal(old(sndAcct(txProc, tx))) == old(bal(sndAcct(txProc, tx))) && nonceOf(old(sndAcct(txProc, tx))) == old(nonceOf(sndAcct(txProc, tx))) && bal(old(rcvAcct(txProc, tx))) == old(bal(rcvAcct(txProc, tx))) && feesCollected(old(txProc.txFeeHandler)) == old(collected(txProc))
+  // the property's "the nonce never increases otherwise / any other rejected transaction changes no balance" for EVERY
+  // transaction with a stale or future nonce, whatever its user names (needs the repair of F23)
+  ensures  other-nonce-changes-nothing: old(intraShardTransfer(txProc, tx)) && old(nonceOf(sndAcct(txProc, tx))) != old(tx.Nonce) ==> err != nil && bal(old(sndAcct(txProc, tx))) == old(bal(sndAcct(txProc, tx))) && nonceOf(old(sndAcct(txProc, tx))) == old(nonceOf(sndAcct(txProc, tx))) && bal(old(rcvAcct(txProc, tx))) == old(bal(rcvAcct(txProc, tx))) && feesCollected(old(txProc.txFeeHandler)) == old(collected(txProc))
+  ensures  nil-transaction-refused: tx == nil ==> err != nil
+
+// ---- C23: the property composed from the contracts (sender a, receiver b, both in this shard, not the same account) --------
+lemma accepted-transfer-conserves-value
+  vars txProc *txProcessor, bp *baseTxProcessor, tx *transaction.Transaction, a state.UserAccountHandler, b state.UserAccountHandler
+  hyp  txProc.baseTxProcessor == bp && tx != nil && chargeCollaborators(txProc) && bp.marshalizer != nil && bp.hasher != nil
+  hyp  tx.Value != nil && allocated(tx.Value) && big(tx.Value) >= 0 && sentinelsDistinct() && sentinelsArePlain()
+  hyp  !isNil(a) && !isNil(b) && a != b
+  hyp  move-balance-fee-within-the-checked-cost: 0 <= moveFee(bp, tx) && moveFee(bp, tx) <= costBase(bp, tx)
+  call e0 = bp.checkTxValues(tx, a, b, false)
+  call e = txProc.processMoveBalance(tx, a, b, process.MoveBalance, false)
+  concl accepted-sender-is-always-charged-fee-and-value: e0 == nil ==> bal(a) == old(bal(a)) - moveFee(bp, tx) - big(tx.Value) && nonceOf(a) == (tx.Nonce + 1) % 18446744073709551616
+  concl success-conserves-value: e0 == nil && e == nil ==> bal(a) + bal(b) + feesCollected(txProc.txFeeHandler) == old(bal(a) + bal(b) + feesCollected(txProc.txFeeHandler))
+  concl success-receiver-gets-value: e0 == nil && e == nil ==> bal(b) == old(bal(b)) + big(tx.Value)
+  concl balances-stay-non-negative: e0 == nil && old(bal(a)) >= 0 && old(bal(b)) >= 0 ==> bal(a) >= 0 && bal(b) >= 0
+
+lemma insufficient-funds-charges-only-the-fee
+  vars txProc *txProcessor, bp *baseTxProcessor, tx *transaction.Transaction, a state.UserAccountHandler, b state.UserAccountHandler
+  hyp  txProc.baseTxProcessor == bp && tx != nil && chargeCollaborators(txProc)
+  hyp  tx.Value != nil && allocated(tx.Value) && big(tx.Value) >= 0 && sentinelsDistinct() && sentinelsArePlain()
+  hyp  !isNil(a) && !isNil(b) && a != b
+  call e0 = bp.checkTxValues(tx, a, b, false)
+  call e = txProc.executingFailedTransaction(tx, a, e0)
+  concl only-the-fee: isFundsErr(e0) ==> bal(a) == old(bal(a)) - fullFee(bp, tx) && nonceOf(a) == (tx.Nonce + 1) % 18446744073709551616 && bal(b) == old(bal(b)) && e != nil
+  concl fee-collected-or-nothing: isFundsErr(e0) ==> feesCollected(txProc.txFeeHandler) == old(feesCollected(txProc.txFeeHandler)) || feesCollected(txProc.txFeeHandler) == old(feesCollected(txProc.txFeeHandler)) + fullFee(bp, tx)
+
+// a rejected transaction that is charged: the sender pays the full fee and its nonce advances by one, the fee goes to the
+// fee collector, the account is saved; a sender that cannot pay the fee is left untouched
+func (txProc *txProcessor) executingFailedTransaction(tx *transaction.Transaction, acntSnd state.UserAccountHandler, txError error) (err error)
+  requires tx != nil && txError != nil && chargeCollaborators(txProc)
+  ensures  no-sender-in-shard: isNil(acntSnd) ==> err == nil && feesCollected(txProc.txFeeHandler) == old(feesCollected(txProc.txFeeHandler))
+  ensures  charged-the-fee: !isNil(acntSnd) && old(bal(acntSnd)) >= fullFee(txProc.baseTxProcessor, tx) ==> bal(acntSnd) == old(bal(acntSnd)) - fullFee(txProc.baseTxProcessor, tx) && nonceOf(acntSnd) == (old(nonceOf(acntSnd)) + 1) % 18446744073709551616
+  ensures  cannot-pay-untouched: !isNil(acntSnd) && old(bal(acntSnd)) < fullFee(txProc.baseTxProcessor, tx) ==> err != nil && bal(acntSnd) == old(bal(acntSnd)) && nonceOf(acntSnd) == old(nonceOf(acntSnd)) && feesCollected(txProc.txFeeHandler) == old(feesCollected(txProc.txFeeHandler))
+  ensures  never-succeeds-with-sender: !isNil(acntSnd) ==> err != nil
+  ensures  fee-collected-only-what-was-charged: feesCollected(txProc.txFeeHandler) == old(feesCollected(txProc.txFeeHandler)) || (feesCollected(txProc.txFeeHandler) == old(feesCollected(txProc.txFeeHandler)) + fullFee(txProc.baseTxProcessor, tx) && bal(acntSnd) == old(bal(acntSnd)) - fullFee(txProc.baseTxProcessor, tx))
+  assigns  elems(acctCell(acntSnd, 0)), elems(acctCell(acntSnd, 1)), elems(feeCell(txProc.txFeeHandler)), elems(storedCell(txProc.baseTxProcessor.accounts, acntSnd, 0)), elems(storedCell(txProc.baseTxProcessor.accounts, acntSnd, 1))
 @*/
